@@ -27,6 +27,12 @@ type eventLog struct {
 	events []string
 }
 
+func (l *eventLog) reset() {
+	l.mu.Lock()
+	l.events = nil
+	l.mu.Unlock()
+}
+
 func (l *eventLog) add(kind string, id int) {
 	l.mu.Lock()
 	l.events = append(l.events, kind+":"+strconv.Itoa(id))
@@ -189,6 +195,9 @@ func icptOp(c *Ctx, op string) {
 				copts = append(copts, o.(connect.ClientOption))
 			}
 			cl := connect.NewClient[emptypb.Empty, emptypb.Empty](&inprocClient{h: okHandlerUnary}, "http://h/s/m", copts...)
+			// the chain is the same on every call of a client: what is recorded is the second call
+			_, _ = cl.CallUnary(context.Background(), connect.NewRequest(&emptypb.Empty{}))
+			log.reset()
 			if _, err := cl.CallUnary(context.Background(), connect.NewRequest(&emptypb.Empty{})); err != nil {
 				return "call-failed " + err.Error()
 			}
@@ -201,6 +210,12 @@ func icptOp(c *Ctx, op string) {
 				return s.Send(&emptypb.Empty{})
 			})
 			cl := connect.NewClient[emptypb.Empty, emptypb.Empty](&inprocClient{h: h}, "http://h/s/m", copts...)
+			if first, err := cl.CallServerStream(context.Background(), connect.NewRequest(&emptypb.Empty{})); err == nil {
+				for first.Receive() {
+				}
+				_ = first.Close()
+			}
+			log.reset()
 			stream, err := cl.CallServerStream(context.Background(), connect.NewRequest(&emptypb.Empty{}))
 			if err != nil {
 				return "call-failed " + err.Error()
@@ -229,6 +244,8 @@ func icptOp(c *Ctx, op string) {
 				return connect.NewResponse(&emptypb.Empty{}), nil
 			}, hopts...)
 			cl := connect.NewClient[emptypb.Empty, emptypb.Empty](&inprocClient{h: h}, "http://h/s/m")
+			_, _ = cl.CallUnary(context.Background(), connect.NewRequest(&emptypb.Empty{}))
+			log.reset()
 			if _, err := cl.CallUnary(context.Background(), connect.NewRequest(&emptypb.Empty{})); err != nil {
 				return "call-failed " + err.Error()
 			}
@@ -243,6 +260,10 @@ func icptOp(c *Ctx, op string) {
 				return connect.NewResponse(&emptypb.Empty{}), s.Err()
 			}, hopts...)
 			cl := connect.NewClient[emptypb.Empty, emptypb.Empty](&inprocClient{h: h}, "http://h/s/m")
+			first := cl.CallClientStream(context.Background())
+			_ = first.Send(&emptypb.Empty{})
+			_, _ = first.CloseAndReceive()
+			log.reset()
 			stream := cl.CallClientStream(context.Background())
 			_ = stream.Send(&emptypb.Empty{})
 			if _, err := stream.CloseAndReceive(); err != nil {
